@@ -9,6 +9,7 @@ import YardlModel.Json
 import YardlModel.Plan
 import YardlModel.SyntaxJson
 import YardlModel.Evolution
+import YardlModel.Topo
 
 /-! Line-protocol driver for the wire engine: one JSON request per line on stdin, one JSON
     reply per line on stdout. -/
@@ -517,6 +518,14 @@ def handle (j : Json) : Except String Json := do
     | .ok x => pure (Json.mkObj [("ok", valToJson x)])
     | .err m => pure (Json.mkObj [("err", Json.str m)])
     | .unsupported m => pure (Json.mkObj [("unsupported", Json.str m)])
+  | "topo" =>
+    -- dependency sort of one namespace: "deps": [[mentions of definition 0], ...], definitions written in order 0..n-1
+    let deps ← (← (← j.getObjVal? "deps").getArr?).toList.mapM fun e => do (← e.getArr?).toList.mapM jNat
+    let roots ← (← (← j.getObjVal? "roots").getArr?).toList.mapM jNat
+    let d : Topo.Deps := fun n => deps.getD n []
+    match Topo.sort d (deps.length + 2) roots with
+    | some l => pure (Json.mkObj [("order", Json.arr (l.map jn).toArray)])
+    | none => pure (Json.mkObj [("cycle", Json.bool true)])
   | "narrow" =>
     let b ← jNat (← j.getObjVal? "bits")
     pure (Json.mkObj [("f32", jn (Json.narrow b))])
